@@ -2,7 +2,15 @@
 package c04
 
 import (
+	"context"
+	"fmt"
+	"sync"
 	"testing"
+	"time"
+
+	"github.com/ThreeDotsLabs/watermill"
+	"github.com/ThreeDotsLabs/watermill/message"
+	"github.com/ThreeDotsLabs/watermill/pubsub/gochannel"
 
 	"github.com/ThreeDotsLabs/watermill/verifharness/gcprog"
 	"github.com/ThreeDotsLabs/watermill/verifharness/lib"
@@ -30,3 +38,89 @@ func TestDelivery(t *testing.T) {
 }
 
 func TestReplayProgram(t *testing.T) { gcprog.ReplayFromEnv(t, 300) }
+
+// ---------- a subscription that sits on an unsettled message does not hold back the others ----------
+
+// "delivered ... to every subscription of that topic that existed when Publish was called": every subscription gets its copy
+// whatever the others do with theirs. One subscription receives the first message and leaves it unsettled; every other
+// subscription has to receive (and settle) that message while the first one is still holding.
+func TestHoldingSubscriberDoesNotDelayOthers(t *testing.T) {
+	rapid.Check(t, func(t *rapid.T) {
+		cfg := gochannel.Config{
+			OutputChannelBuffer: int64(rapid.IntRange(0, 4).Draw(t, "buffer")),
+			Persistent:          rapid.Bool().Draw(t, "persistent"),
+		}
+		n := rapid.IntRange(2, 4).Draw(t, "subscriptions")
+		holder := rapid.IntRange(0, n-1).Draw(t, "holderRegisteredAs")
+		nmsgs := rapid.IntRange(1, 3).Draw(t, "messages")
+		g := gochannel.NewGoChannel(cfg, watermill.NopLogger{})
+		defer g.Close()
+		chans := make([]<-chan *message.Message, n)
+		for i := range chans {
+			ch, err := g.Subscribe(context.Background(), "T")
+			if err != nil {
+				t.Fatalf("harness: %v", err)
+			}
+			chans[i] = ch
+		}
+		var mu sync.Mutex
+		got := make([]map[string]int, n)
+		for i := range got {
+			got[i] = map[string]int{}
+		}
+		held := make(chan *message.Message, 1)
+		for i, ch := range chans {
+			go func(i int, ch <-chan *message.Message) {
+				first := true
+				for m := range ch {
+					mu.Lock()
+					got[i][m.UUID]++
+					mu.Unlock()
+					if i == holder && first {
+						first = false
+						held <- m // left unsettled for now
+						continue
+					}
+					m.Ack()
+				}
+			}(i, ch)
+		}
+		for k := 0; k < nmsgs; k++ {
+			if err := g.Publish("T", message.NewMessage(fmt.Sprintf("m%d", k), nil)); err != nil {
+				t.Fatalf("harness: publish: %v", err)
+			}
+		}
+		var heldMsg *message.Message
+		select {
+		case heldMsg = <-held:
+		case <-time.After(lib.Live):
+			t.Fatalf("violation: subscription %d never received a message", holder)
+		}
+		complete := func() bool {
+			mu.Lock()
+			defer mu.Unlock()
+			for i := range got {
+				if i == holder {
+					continue
+				}
+				for k := 0; k < nmsgs; k++ {
+					if got[i][fmt.Sprintf("m%d", k)] == 0 {
+						return false
+					}
+				}
+			}
+			return true
+		}
+		if !lib.WaitUntil(lib.Live, complete) {
+			mu.Lock()
+			state := fmt.Sprint(got)
+			mu.Unlock()
+			heldMsg.Ack()
+			t.Fatalf("violation: while subscription %d (of %d) held %s unsettled, the other subscriptions did not receive all %d messages within %v: %s (buffer %d, persistent %v)",
+				holder, n, heldMsg.UUID, nmsgs, lib.Live, state, cfg.OutputChannelBuffer, cfg.Persistent)
+		}
+		heldMsg.Ack()
+		lib.Case(fmt.Sprintf("holder|%+v|%d|%d|%d", cfg, n, holder, nmsgs), true, "holding-subscriber", fmt.Sprintf("buffer=%d", cfg.OutputChannelBuffer))
+		lib.Sample(map[string]any{"test": "HoldingSubscriberDoesNotDelayOthers", "buffer": cfg.OutputChannelBuffer, "persistent": cfg.Persistent, "subscriptions": n, "holder": holder, "messages": nmsgs})
+	})
+}
